@@ -21,19 +21,19 @@ CONSTANTS
   UnlockFirst = FALSE
   FlushEntry = TRUE
   UnmapOnDrop = TRUE
-  Linear = FALSE
+  Linear = TRUE
   AllowNested = FALSE
   OthersCall = "never"
   KeepPagesWritable = FALSE
   TrampFlushed = TRUE
   Regen = FALSE
   SavedFrom = "install"
-  ForeignReuse = FALSE
+  ForeignReuse = TRUE
   AllocAt = "hint"
-  MaxLives = 1
+  MaxLives = 2
   MaxInstalls = 2
   MaxCtr = 2
 CONSTRAINT Bound
-INVARIANT TypeOK Restored LatestWins NoWildAtUser OnlyNamed Mutex HolderIsLock NoAbort Reusable IdleClean NoLeak FreeOnce FlushedAtUser NoFault NoSelfDeadlock WX
+INVARIANT ForeignIntact TypeOK Restored LatestWins NoWildAtUser OnlyNamed Mutex HolderIsLock NoAbort Reusable IdleClean NoLeak FreeOnce FlushedAtUser NoFault NoSelfDeadlock WX
 PROPERTY FreshCount RefusedUntouched
 CHECK_DEADLOCK FALSE
